@@ -374,6 +374,9 @@ def run(P, rep, tier):
     r_return_conversion(P, rep)
     from .c16 import r_atomic_operand_type
     r_atomic_operand_type(P, rep, 'R01.4')
+    from ..lib_types import r_address_of_type
+    rep.rule('R01.12', 'the address operator yields a pointer to the type of its operand (C11 6.5.3.2p3), so that pointer arithmetic and sizeof on the result use the operand\'s size', floor=5)
+    r_address_of_type(P, rep, 'R01.12')
     from ..report import Report, reissue
     from ..lib_c04 import r_vla_arith
     rep.rule('R01.3v', 'pointer arithmetic on variably modified types: p+n, n+p, p-n scale by the run-time row size, p-q is the SIGNED byte difference divided by it (shared with C04 R04.13)', floor=20)
